@@ -1,12 +1,17 @@
 /-
   C02 — Well-formed code re-scans to the same tokens after formatting.
   Proved here: the unconditional safety net (a line break always follows a single-line comment),
-  and that each content rule is exactly the documented normalisation.  Stability of the scanner
-  under re-spacing (`relex_stable`) and the non-gluing spacing table are not yet theorems: the
-  re-scan oracle runs on every well-formed case (partial).
+  that each content rule is exactly the documented normalisation, that the scanner is *local*
+  (`scanner_is_local`: a token is decided by its own bytes and at most three bytes of lookahead) and,
+  from that, `C02_relex` / `C02_format`: when every emitted token is scanned back in its three-byte
+  window — the decidable contract `relexB`, evaluated by the driver on every well-formed case (field
+  `rx`) — scanning the whole output yields exactly the emitted token vector.  That the formatter's
+  spacing decisions always satisfy the contract is grammar knowledge and stays with the contract.
 -/
 import PasfmtModel.Proofs.ReconProps
 import PasfmtModel.Proofs.RulesSim
+import PasfmtModel.Proofs.LexLocal7
+import PasfmtModel.Model.Pipeline
 
 namespace Pasfmt.C02
 
@@ -129,5 +134,52 @@ theorem line_comment_normalisation (U : Bytes → Bool) (c c' : Bytes) (h : form
       rw [← h1, this, (Gap.of_allLe20 hle).blankOnly]; simp
     · have := (hstrip1 c' (by rw [h]; rfl)).1
       exact this
+
+/-- **The scanner is local.**  The token at the head of `p ++ s` — leading blanks, end, kind and the
+    scanner state after it — is found unchanged at the head of `p ++ s'` for every `s'`, provided
+    the token ends at least three bytes (one character, U+3000) before the end of `p` and the blank
+    tail of the text lies inside `s`: nothing beyond three bytes of lookahead is ever consulted, for
+    any token class (identifiers, numbers, text literals incl. multi-line, comments, compiler
+    directives with nested expressions, assembler tokens), any state, any length. -/
+theorem scanner_is_local (st : LexState) (p s s' : Bytes) (ws e : Nat) (k : RawKind) (st' : LexState)
+    (ht : countTrailingWs (p ++ s) ≤ s.length)
+    (h : lexOne false st (p ++ s) = some (some (ws, e, k, st'))) (he : e + 3 ≤ p.length) :
+    lexOne false st (p ++ s') = some (some (ws, e, k, st')) :=
+  lexOne_local st p s s' ws e k st' ht h he
+
+/-- the hypothesis is met, e.g., by `x := 1;` cut after `x := ` — and the token is found again before
+    any other continuation -/
+example : lexOne false LexState.init ("x := ".toUTF8.toList ++ "1;".toUTF8.toList) =
+    some (some (0, 1, .rIdentifier, { isFirst := false, inAsm := false, prevReal := some .rIdentifier })) ∧
+    1 + 3 ≤ "x := ".toUTF8.toList.length ∧ countTrailingWs ("x := ".toUTF8.toList ++ "1;".toUTF8.toList) ≤ 2 := by
+  decide +kernel
+
+/-- **C02, re-scan.**  If every token of the final token vector is scanned back from its window
+    (`relexFT` succeeds, finding kinds `ks`), then scanning the whole reconstructed output yields
+    exactly these tokens: the emitted gaps as leading blanks, the emitted contents, the kinds `ks`,
+    and one end-of-file token.  No token is glued to its neighbour, split, or absorbed. -/
+theorem C02_relex (S : Settings) (ft : FT) (ks : List RawKind)
+    (h : relexFT S LexState.init false ft = some ks) :
+    lex (reconstruct S ft) = some (relexToks S false ft ks) := by
+  unfold lex lexWith reconstruct
+  exact relexFT_sound S ft LexState.init false ks _ h (by omega)
+
+/-- **C02 for the pipeline.**  With the contract `relexB` (what the driver evaluates: the windowed
+    re-scan succeeds and finds the input's kinds up to the first-on-line status of comments), the
+    output of `formatTokens` scans to the formatter's final token vector, one token per input token. -/
+theorem C02_format (cfg : Config) (O : Oracles) (raw : List RawTok)
+    (h : relexB cfg.settings raw (O.wrap cfg (preWrap O raw).2.1 (preWrap O raw).2.2) = true) :
+    ∃ ks, lex (formatTokens cfg O raw) =
+        some (relexToks cfg.settings false (O.wrap cfg (preWrap O raw).2.1 (preWrap O raw).2.2) ks) ∧
+      ks.length + 1 = raw.length ∧
+      (raw.zip ks).all (fun p => sameKindModPos p.1.kind p.2) = true := by
+  unfold relexB at h
+  split at h
+  · rename_i ks hks
+    simp only [Bool.and_eq_true, beq_iff_eq] at h
+    refine ⟨ks, ?_, h.1, h.2⟩
+    unfold formatTokens
+    exact C02_relex cfg.settings _ ks hks
+  · simp at h
 
 end Pasfmt.C02
